@@ -160,8 +160,14 @@ func drawTunCfg(e *Env) tunCfg {
 	if p == "C03" || p == "C09" {
 		stallOdds = 6
 	}
+	if p == "C17" {
+		stallOdds = 2 // order bugs live in windows of a few instructions: hold tasks there often
+	}
 	if (p == "C05" || p == "C17" || p == "C04" || p == "C10" || p == "C03" || p == "C09") && e.Choose("cfg.stall", stallOdds) == 0 {
 		c.Stall = []int{3, 10, 30}[e.Choose("cfg.stallp", 3)]
+		if p == "C17" {
+			c.Stall = []int{10, 30, 100}[e.Choose("cfg.stallp17", 3)]
+		}
 		c.StallMax = e.PickDur("cfg.stallmax", time.Millisecond, 10*time.Millisecond)
 	}
 	if p == "C03" || p == "C09" || p == "C10" || p == "C04" {
